@@ -130,7 +130,7 @@ func c04(r *Report) {
 			if c.Src != nil && derives(c.Src, brw) {
 				nBrw++
 			}
-			if c.Src != nil && unwrapIface(c.Src) == ssa.Value(hcr.Params[5]) {
+			if c.Src != nil && isParamVal(unwrapIface(c.Src), hcr.Params[5]) {
 				nRawClient++
 			}
 		}
